@@ -197,6 +197,31 @@ def scripts_for(nmsgs, rng, exhaustive):
     out.append("0:3")     # an answer that is none of the three constants is ignored
     return out
 
+CHAIN_OK = b"..ABCD" + b"." * 350 + b"1234.." + b"WXYZ" + b"-" * 320 + b"5678.."
+CHAIN_NO = b"..ABCD" + b"." * 100 + b"1234.." + b"WXYZ" + b"-" * 90 + b"5678.."
+
+
+def chained_ruleset():
+    """rules whose only strings are CHAINED (a jump above 200 bytes splits a hex string / regexp into a chain): global,
+    private, ordinary, in two namespaces; twins that also have an ordinary string; a chain that never completes.
+    Verdicts do not depend on YR_CONFIG_MAX_MATCH_DATA."""
+    hexc = "strings: $h = { 41 42 43 44 [300-400] 31 32 33 34 } "
+    rexc = "strings: $r = /WXYZ-{300,400}5678/ "
+    never = "strings: $h = { 41 42 43 44 [300-400] 39 39 39 39 } "
+    twin = 'strings: $h = { 41 42 43 44 [300-400] 31 32 33 34 } $o = "ABCD" '
+    ok = lambda b: b is CHAIN_OK or b == CHAIN_OK
+    has = lambda b: b"ABCD" in b
+
+    def r(name, g, p, text, v, decl):
+        return {"name": name, "g": g, "p": p, "d": 0, "cond": ("raw", text, v, decl)}
+    return RuleSet([
+        (0, [], [r("r0", 1, 0, "$h", ok, hexc), r("r1", 0, 0, "$h", ok, hexc), r("r2", 0, 1, "$r", ok, rexc), r("r3", 0, 0, "$r", ok, rexc),
+                 r("r4", 0, 0, "#h == 1", ok, hexc), r("r5", 0, 0, "any of them", has, twin), r("r6", 0, 0, "$h", False, never),
+                 {"name": "r7", "g": 0, "p": 0, "d": 0, "cond": 0}]),
+        (1, [], [r("r8", 1, 1, "$r", ok, rexc), r("r9", 0, 0, "$h and true", ok, hexc), {"name": "r10", "g": 0, "p": 0, "d": 0, "cond": 0}]),
+        (2, [], [r("r11", 1, 0, "$h", False, never), {"name": "r12", "g": 0, "p": 0, "d": 0, "cond": 0}])])
+
+
 BOUNDARY = [31, 32, 33, 63, 64, 65, 127, 128, 129]
 
 
@@ -331,13 +356,20 @@ def run(chk):
     for rs in scale_rulesets(mods, quick):
         rulesets.append(("scale", rs))
 
+    # the configuration dimension: YR_CONFIG_MAX_MATCH_DATA in {0, 1, default}; rules whose only strings are chained
+    for mmd in (0, 1, 512):
+        rulesets.append(("chain:%d" % mmd, chained_ruleset()))
+
     cases, plan = [], []     # plan: per case the list of (flags, script, buf, entry)
     sg = chk.rng.fork()
     for ci, (kind, rs) in enumerate(rulesets):
         cmds = rs.commands()
+        if kind.startswith("chain:"):
+            cmds.append("config maxmatchdata " + kind.split(":")[1])
         scans = []
         nmsgs = 2 * len(set(rs.import_ids())) + len(rs.rules()) + 1
-        bufs = [BUFS[3]] if kind == "small" else [SCALE_BUF] if kind == "scale" else [sg.choice(BUFS), BUFS[3]]
+        bufs = [BUFS[3]] if kind == "small" else [SCALE_BUF] if kind == "scale" else [CHAIN_OK, CHAIN_NO, CHAIN_OK] if kind.startswith("chain:") \
+            else [sg.choice(BUFS), BUFS[3]]
         alt = 0
         for buf0 in bufs:
             for f in FLAGS:
